@@ -98,6 +98,11 @@ Tie / search (DESIGN.md §4.2, §5 C06):
    (i) operators on arrays (gen_arrayop_family): + - * / % over every ordered pair of (scalar, rank 1-3 array) x (int,
        long, float, double, bool, string, char) with an array operand, and unary minus; accepted exactly: a +- b of one
        numeric kind and rank, numeric scalar * numeric array, rank-2 * rank-2 of one numeric kind, - numeric array.
+   (j) arms / branches of one expression have different types (gen_branch_family): match with item / record guards,
+       with else, nested, over a call; if-let; ?: (nested, inside a match arm); if-else, if-elseif-else; catch clauses
+       against the function's result type; list comprehension element against its declared type - ONE arm of another
+       kind (int, string, bool, record, array, function, char) at every arm position incl. else, value returned / passed /
+       assigned (coverage.branch_types_family).
        (e)-(i): distributions in coverage.alias_family / call_syntax_family / array_literal_family / module_type_family /
        array_operator_family.
   Corpus: /verif/corpus/C06/*.nev (first line `# expect: accept` | `# expect: reject line=<n>
@@ -1873,6 +1878,123 @@ def gen_arrayop_family(rng, quick):
     return cases
 
 
+# ---- (j) arms / branches of one expression have different types ------------------------------------------
+BR_PRE = """enum E { A, B, C }
+enum ER { A { x : int; }, B, C }
+record R { x : int; }
+func f1(a : int) -> int { a + 1 }
+func s_int(z : int) -> int { 0 }
+func s_str(z : string) -> int { 0 }
+func s_bool(z : bool) -> int { 0 }
+func s_rec(z : R) -> int { 0 }
+func s_arr(z[D] : int) -> int { 0 }
+func s_fun(z(int) -> int) -> int { 0 }
+func s_chr(z : char) -> int { 0 }"""
+# kind -> (type text, values, default for a var)
+BR_KINDS = {
+    "int": ("int", ["1", "2", "3", "4"]),
+    "str": ("string", ['"a"', '"b"', '"c"', '"d"']),
+    "bool": ("bool", ["true", "false", "(1 < 2)", "true"]),
+    "rec": ("R", ["R(1)", "R(2)", "R(3)", "R(4)"]),
+    "arr": ("[_] : int", ["[ 1 ] : int", "[ 2, 3 ] : int", "[ 4 ] : int", "[ 5 ] : int"]),
+    "fun": ("(int) -> int", ["f1", "let func (q : int) -> int { q }", "f1", "f1"]),
+    "chr": ("char", ["'a'", "'b'", "'c'", "'d'"]),
+}
+BR_MSG = (r"^match guards? |^types on conditional expression do not match|^incorrect return type|^list comprehension|"
+          r"^cannot assign different types|^function call type mismatch|^expected param |are different|do not match|"
+          r"^array is not well formed|^incorrect types")
+# construct -> (expression template over arms $0 $1 $2, number of arms, names of the arm positions)
+BR_CONSTRUCTS = [
+    ("match-item-guards", "match e { E::A -> $0; E::B -> $1; E::C -> $2; }", ["first", "middle", "last"]),
+    ("match-item-guards-else", "match e { E::A -> $0; E::B -> $1; else -> $2; }", ["first", "middle", "else"]),
+    ("match-one-guard-else", "match e { E::B -> $0; else -> $1; }", ["first", "else"]),
+    ("match-record-guards", "match er { ER::A(x) -> $0; ER::B -> $1; ER::C -> $2; }", ["record-guard", "middle", "last"]),
+    ("match-record-guards-else", "match er { ER::B -> $0; ER::A(x) -> $1; else -> $2; }", ["first", "record-guard", "else"]),
+    ("match-call-scrutinee-else", "match mk() { E::A -> $0; else -> $1; }", ["first", "else"]),
+    ("match-nested-in-else", "match e { E::A -> $0; else -> match e { E::B -> $1; else -> $2; }; }", ["outer", "inner", "inner-else"]),
+    ("iflet-item", "if let (E::A = e) { $0 } else { $1 }", ["then", "else"]),
+    ("iflet-record", "if let (ER::A(x) = er) { $0 } else { $1 }", ["then", "else"]),
+    ("conditional", "(b ? $0 : $1)", ["then", "else"]),
+    ("conditional-nested", "(b ? $0 : (b ? $1 : $2))", ["then", "inner-then", "inner-else"]),
+    ("if-else", "if (b) { $0 } else { $1 }", ["then", "else"]),
+    ("if-elseif-else", "if (b) { $0 } else if (b) { $1 } else { $2 }", ["then", "elseif", "else"]),
+    ("match-arm-conditional", "match e { E::A -> (b ? $0 : $1); else -> $2; }", ["arm-then", "arm-else", "else"]),
+]
+BR_SINKS = ["return", "pass", "assign", "let-pass"]
+
+
+def gen_branch_family(rng, quick):
+    cases = []
+    n = [0]
+    kinds = list(BR_KINDS)
+
+    def add(kind, cname, pos, tk, uk, sink, body, ret, tail, params=""):
+        host = AL_HOSTS[n[0] % 3]
+        src, l0, l1 = host_program(BR_PRE + "\nfunc mk() -> E { E::A }", host, params, ret, [], body, tail=tail)
+        if sink == "return" and kind == "mutant":
+            l0 -= 2               # `incorrect return type` may be reported at the function's line
+        n[0] += 1
+        c = tcase("br%d" % n[0], "br", kind, "BranchTypes:%s:%s" % (cname, pos), "%s-vs-%s|%s|%s" % (tk, uk, sink, host),
+                  "reject" if kind == "mutant" else "accept", src, line=max(l0, 1), msg=BR_MSG,
+                  extra={"cell": (cname, pos, sink), "construct": cname, "pos": pos})
+        c["l1"] = l1
+        cases.append(c)
+
+    locs = [("let e = mk(); let er = ER::A(1); let b = 1 < 2;", False)]
+
+    def use(expr, tk, sink):
+        ty = BR_KINDS[tk][0]
+        if sink == "return":
+            return locs + [(expr, True)], ty, None
+        if sink == "pass":
+            return locs + [("let u = s_%s(%s);" % (tk, expr), True)], "int", "0"
+        if sink == "assign":
+            return locs + [("var w = %s;" % BR_KINDS[tk][1][3], False), ("w = %s;" % expr, True)], "int", "0"
+        return locs + [("let w = %s;" % expr, True), ("let u = s_%s(w);" % tk, True)], "int", "0"
+
+    for cname, tmpl, positions in BR_CONSTRUCTS:
+        for tk in kinds:
+            vals = BR_KINDS[tk][1]
+            base = tmpl
+            for i in range(len(positions)):
+                base = base.replace("$%d" % i, vals[i])
+            for sink in BR_SINKS:
+                body, ret, tail = use(base, tk, sink)
+                add("base", cname, "-", tk, tk, sink, body, ret, tail)
+            for pi, pos in enumerate(positions):
+                others = [k for k in kinds if k != tk]
+                for uk in (others if not quick else rng.sample(others, 3)):
+                    expr = tmpl
+                    for i in range(len(positions)):
+                        expr = expr.replace("$%d" % i, BR_KINDS[uk][1][i] if i == pi else vals[i])
+                    sink = BR_SINKS[n[0] % len(BR_SINKS)]
+                    body, ret, tail = use(expr, tk, sink)
+                    add("mutant", cname, pos, tk, uk, sink, body, ret, tail)
+    # catch clauses against the function's result type, list comprehension element against its declared type
+    for tk in kinds:
+        ty, vals = BR_KINDS[tk]
+        for uk in kinds:
+            bad = uk != tk
+            uv = BR_KINDS[uk][1]
+            for cname, pos, text in (
+                    ("catch-clauses", "typed-clause", "func g(q : int) -> %s { %s } catch (division_by_zero) { %s } catch { %s };" % (ty, vals[0], uv[1], vals[2])),
+                    ("catch-clauses", "catch-all", "func g(q : int) -> %s { %s } catch (division_by_zero) { %s } catch { %s };" % (ty, vals[0], vals[1], uv[2])),
+                    ("catch-clauses", "second-typed-clause", "func g(q : int) -> %s { %s } catch (nil_pointer) { %s } catch (index_out_of_bounds) { %s };" % (ty, vals[0], vals[1], uv[2])),
+                    ("catch-clauses", "lambda-clause", "let g = let func (q : int) -> %s { %s } catch (wrong_array_size) { %s };" % (ty, vals[0], uv[1]))):
+                body = [(text, True), ("let u = s_%s(g(1));" % tk, False)]
+                add("mutant" if bad else "base", cname, pos, tk, uk, "pass", body, "int", "0")
+            if tk != "arr":
+                for sink in ("pass", "return"):
+                    lc = "[ %s | x in [ 1, 2 ] : int ] : %s" % (uv[0], ty)
+                    if sink == "pass":
+                        body = [("func sk(z[D] : %s) -> int { 0 };" % ty if tk != "fun" else "func sk(z[D] : (int) -> int) -> int { 0 };", False),
+                                ("let u = sk(%s);" % lc, True)]
+                        add("mutant" if bad else "base", "listcomp-element", "element", tk, uk, sink, body, "int", "0")
+                    else:
+                        add("mutant" if bad else "base", "listcomp-element", "element", tk, uk, sink, [(lc, True)], "[_] : %s" % ty, None)
+    return cases
+
+
 def run_round3_families(ctx, drv, quick):
     rng = random.Random((ctx.seed << 12) ^ 0xC063)
     fams = [("alias", gen_alias_family(rng, quick),
@@ -1884,7 +2006,9 @@ def run_round3_families(ctx, drv, quick):
             ("module_type", gen_module_family(rng, False),
              lambda c: "accepted:ModuleType:%s" % c["construct"]),
             ("array_operator", gen_arrayop_family(rng, False),
-             lambda c: "accepted:ArrayOperator:%s:%s" % c["opclass"])]
+             lambda c: "accepted:ArrayOperator:%s:%s" % c["opclass"]),
+            ("branch_types", gen_branch_family(rng, quick),
+             lambda c: "accepted:BranchTypes:%s:%s" % (c["construct"], c["pos"]))]
     allcases = [c for _n, cs, _k in fams for c in cs]
     res = compile_all(ctx, drv, allcases, "r3")
     for name, cases, keyfn in fams:
@@ -1932,6 +2056,11 @@ def run_round3_families(ctx, drv, quick):
         "+ - * / % over every ordered pair of operands (scalar, rank 1, 2, 3 arrays of int, long, float, double, bool, string, char) "
         "with at least one array, and unary minus; accepted exactly: a+-b same numeric kind and rank, numeric scalar * numeric array, "
         "rank-2 * rank-2 of one numeric kind, -numeric array; everything else must be `cannot exec arithmetic ...` on its line")
+    ctx.coverage["branch_types_family"]["rule"] = (
+        "every multi-branch expression (match with item / record guards, with else, nested, call scrutinee; if-let item / record; ?: "
+        "also nested and inside a match arm; if-else, if-elseif-else; catch clauses against the function's result type; list "
+        "comprehension element against its declared type) with ONE arm of another kind (int, string, bool, record, array, function, "
+        "char) at every arm position incl. the else arm, the value returned / passed / assigned; all arms of one kind must compile")
     ctx.coverage["array_literal_family"]["rule"] = (
         "rectangular nested literals of 2-4 levels (every extent 0..3, all-empty rows included: accepted) and their one-row "
         "mutants (row empty / shorter / longer / deeper / shallower / replaced by a scalar / non-empty among empty, first / middle / "
